@@ -751,7 +751,7 @@ func (u *Unit) addMapWrite(ws *writeSet, mt types.Type, base ssa.Value, inLoop f
 	}
 	ws.add(mapDomFam(mt), ArrSort(SInt, ArrSort(ks, SBool)), base, inLoop)
 	if valsToo {
-		for _, c := range comps(m.Elem()) {
+		for _, c := range mapComps(m.Elem()) {
 			ws.add(mapValFam(mt)+c[0], ArrSort(SInt, ArrSort(ks, c[1])), base, inLoop)
 		}
 	}
